@@ -264,6 +264,7 @@ func checkC12(w *World, r *Report) {
 	}
 	checkCallers(binder, 0)
 	r.floor("call sites of the macro choke point", n4, 3)
+	checkParserDoesNotEvaluate(w, r)
 }
 
 // macroArgsOrigin: "" if unknown; else a description of an accepted origin.
@@ -659,4 +660,45 @@ func classifyBinding(w *World, fn *ssa.Function, val ssa.Value, at *ssa.BasicBlo
 		}
 	}
 	return bad("", "the bound value is neither args[i], the evaluated default of this parameter, nor null")
+}
+
+// checkParserDoesNotEvaluate — R12.6: a default expression is evaluated when the macro is
+// called, in the macro's context — like every other expression of a template.  Nothing
+// reachable from Parser.Parse calls the evaluator or a Node's Render: the parser builds the
+// tree, the renderer gives it meaning.  "Constant folding" of an expression that happens to
+// evaluate without error in an empty context freezes `theme ~ '-badge'` or `site.name` to
+// what it is worth where no variable exists.
+func checkParserDoesNotEvaluate(w *World, r *Report) {
+	parse := w.ssaFunc(w.method("Parser", "Parse"))
+	reach := w.reachableFrom([]*ssa.Function{parse})
+	eval := w.ssaFunc(w.method("RenderContext", "EvaluateExpression"))
+	n := 0
+	bad := 0
+	for _, fn := range w.pkgFuncs() {
+		if !reach[fn] {
+			continue
+		}
+		n++
+		instrsOf(fn, func(in ssa.Instruction) {
+			c, ok := in.(ssa.CallInstruction)
+			if !ok {
+				return
+			}
+			cc := c.Common()
+			what := ""
+			if cc.StaticCallee() == eval {
+				what = "EvaluateExpression"
+			} else if cc.IsInvoke() && cc.Method.Name() == "Render" && isNamed(cc.Value.Type(), twigPath, "Node") {
+				what = "Node.Render"
+			}
+			if what == "" {
+				return
+			}
+			bad++
+			r.bad("R12.6", ssaName(fn), "the parser does not evaluate expressions", w.posOf(in.Pos()), "a function reachable from Parser.Parse ("+strings.Join(w.pathTo([]*ssa.Function{parse}, fn), " → ")+") calls "+what+": an expression is given its value while the template is parsed — without the variables, globals and macro arguments of the call it was written for — instead of each time it is used")
+		})
+	}
+	if bad == 0 {
+		r.ok("R12.6", "(*Parser).Parse", "the parser does not evaluate expressions", "-", fmt.Sprintf("none of the %d functions reachable from Parse calls EvaluateExpression or a Node's Render", n), true)
+	}
 }
